@@ -269,6 +269,6 @@ def lemma_dispatch_worker(ctx):
             soft = p.ghost.get("rlimit_soft")
             lim = soft.t if soft is not None else z3.IntVal(1024)
             pre = [nt.t >= 1, nt.t <= 64] + ([soft.t >= 1024] if soft is not None else [])
-            ctx.lemma(eng, "C20: the job queue is bounded (>= 1) and 2*(queue + workers + 1) descriptors fit the soft descriptor limit for 1..64 workers",
+            ctx.lemma(eng, "C06/C20: the job queue is bounded (>= 1) and 2*(queue + workers + 1) descriptors fit the soft descriptor limit for 1..64 workers (otherwise EMFILE depends on how far the dispatcher gets ahead of the workers)",
                       p.pc + pre, z3.And(ql.t >= 1, 2 * (ql.t + nt.t + 1) <= lim))
     ctx.bounds = "one arbitrary operation of each kind then queue closure; every call may fail once; no-clobber symbolic; workers <= 65536"
